@@ -644,6 +644,7 @@ def run(repo, rep, tier):
   c09_extra.r1f_optional(repo, rep, closure)
   c09_extra.r1d_greedy_keys(repo, rep)
   c09_extra.r1g_integer_parameters(repo, rep, closure)
+  c09_extra.r1h_dict_field_keys(repo, rep, closure)
   # R1e: shared with C10 — indices never refer to a stale array
   from mmsa.props import c10
   sub = type(rep)(rep.prop, rep.tier, rep.repo)
